@@ -17,6 +17,7 @@ LEVEL_TEXT = ("Theorems over the reals. (1) Nearest-hit reduction of render.py's
               "_compute_box_bounds(pos, rot, half) -- this was FALSE before: the check found that off-centre meshes were clipped, repaired in /repo 670227b 'fix: rendered meshes were clipped when their "
               "vertex bounding box is not centred on the geom frame'. (5) End to end for sphere scenes with Gen ray_sphere + _compute_sphere_bounds. Witnesses (C35Witness): infinite-plane leaf box "
               "+-1000; orthographic constant ray. On the real code every pixel of random scenes / cameras / resolutions / intrinsics / worlds is compared with mujoco.mj_ray along an independently computed pixel ray.")
+TECHNIQUE = ('Lean 4 theorems over functions regenerated from source (compute_ray, BVH bounds, ray-geom) and over a hand-written model of the cast loop / BVH traversal (Model/RayCast.lean; wp.Bvh is an opaque builtin, its contract is a hypothesis); oracle: per-pixel mujoco.mj_ray')
 LEVEL_NOTE = ("C35_partial: render._render_megakernel, cast_ray and bvh._compute_bvh_bounds are not translated (closure factories, opaque wp.bvh_query_* builtins): pixel decoding, enabled_geom_ids indirection, "
               "per-type dispatch, mesh triangle queries, hfield/flex leaves are covered by the oracle only; build_mesh_bvh's half extent is host numpy code, modelled by hand and compared with the real "
               "rc.mesh_bounds_size on every mesh scene. Still present in /repo (findings): orthographic cameras render a constant image, infinite planes end 1000 m from their origin, a scene with no "
